@@ -93,7 +93,9 @@ def reference(p1, p2, m1, m2, box, selfo, k):
     out = np.zeros_like(k)
     for f in range(p1.shape[0]):
         d = p1[f][:, None, :] - p2[f][None, :, :]
-        d -= box[f] * np.round(d / box[f])
+        per = np.isfinite(box[f]) & (box[f] > 0)           # an edge of 0 (2-D trajectory) or inf (open direction) is not periodic
+        with np.errstate(all='ignore'):
+            d = np.where(per, d - np.where(per, box[f], 1.0) * np.round(d / np.where(per, box[f], 1.0)), d)
         r = np.sqrt((d ** 2).sum(-1))
         same = (m1[:, None] == m2[None, :])
         if selfo:
@@ -123,10 +125,17 @@ def gen_traj(rng, selfo):
     else:
         base = rng.uniform(6, 20, size=(1, 3))
     box = base.repeat(F, axis=0) * rng.uniform(0.95, 1.05, size=(F, 1))
+    degenerate = None
+    if rng.random() < 0.12:
+        # a planar trajectory in the HOOMD/GSD convention (box edge 0, coordinate 0) or an open direction (edge inf)
+        ax = int(rng.integers(0, 3))
+        degenerate = (ax, str(rng.choice(['planar', 'open'])))
 
     def pos(N):
         while True:
             p = rng.uniform(0, 1, size=(F, N, 3)) * box[:, None, :]
+            if degenerate is not None and degenerate[1] == 'planar':
+                p[:, :, degenerate[0]] = 0.0
             return p
     p1 = pos(N1)
     m1 = (rng.integers(0, nm, size=N1) if nm < 10 ** 6 else np.arange(N1)).astype(np.int64)
@@ -135,6 +144,9 @@ def gen_traj(rng, selfo):
     else:
         p2 = pos(N2)
         m2 = (rng.integers(0, nm, size=N2) if nm < 10 ** 6 else np.arange(N2) % max(1, N1)).astype(np.int64)
+    if degenerate is not None:
+        box = np.array(box)
+        box[:, degenerate[0]] = 0.0 if degenerate[1] == 'planar' else np.inf
     dom = pyPRISM.Domain(length=int(rng.choice([16, 32, 64])), dk=float(rng.choice([0.05, 0.1, 0.3])))
     return dom, p1, p2, m1, m2, box
 
